@@ -97,6 +97,9 @@ use vstd::std_specs::cmp::PartialEqSpecImpl;
 pub struct VerifIter<T> { _k: PhantomData<T> }
 impl<T> View for VerifIter<T> { type V = Seq<T>; uninterp spec fn view(&self) -> Seq<T>; }
 impl<T> VerifIter<T> {
+    /// API neighbourhood (not called by the unchanged code): `Iterator::take` / `skip`
+    #[verifier::external_body] pub fn take(self, n: usize) -> (r: VerifIter<T>) ensures r@ == self@.take(if n <= self@.len() { n as int } else { self@.len() as int }) { unimplemented!() }
+    #[verifier::external_body] pub fn skip(self, n: usize) -> (r: VerifIter<T>) ensures r@ == self@.skip(if n <= self@.len() { n as int } else { self@.len() as int }) { unimplemented!() }
     #[verifier::external_body]
     pub fn next(&mut self) -> (r: Option<T>)
         ensures match r {
